@@ -1,6 +1,7 @@
 import Qryn.Proofs.LogQLMetric
 import Qryn.Proofs.MetricUnwrap
 import Qryn.Proofs.MetricXCorollaries
+import Qryn.Proofs.MetricOrder
 /-! # C08 — the SQL generated for LogQL metric queries computes the defined aggregates
 
 Model: `LogQL.planMetric` (tied byte-for-byte to the real planner's SQL text by the `text` stream, its step
@@ -555,6 +556,48 @@ theorem output_series_identified_by_grouped_labels_ext (o : Oracles) (c : MCtx) 
     of the samples table -/
 theorem ext_stages_take_effect (o : Oracles) (c : Ctx) (d : LokiDb) (r : RangeAggX) :
     entriesX o c d r = stagesX o r.post (entriesAtJoin o c d r.sel) := rfl
+
+/-! ## the physical order of the samples table (first/last_over_time) -/
+
+/-- **no storage-order hypothesis is needed when timestamps are distinct.** For a supported unwrapped range aggregation
+    (first/last_over_time included) the statement returns the same matrix for every physical order of the `samples` table
+    (`Reordered`: the same rows, each once, no two rows sharing a timestamp; same index and series tables): nothing in the plan
+    depends on the order rows are stored or read in. (`plan_metric_correct_unwrap` says which matrix.) -/
+theorem plan_metric_unwrap_any_row_order (o : Oracles) (c : MCtx) (hn : c.namesOk) (d d' : LokiDb) (q : MetricQuery)
+    (hsup : supportedU q = true) (h : Reordered d d') :
+    (evalSelA o (d.toDbM c) (planMetric c q)).map normRow = (evalSelA o (d'.toDbM c) (planMetric c q)).map normRow :=
+  planMetric_unwrap_reordered o c hn d d' q hsup h
+
+/-- the same on the labelled path (also `quantile_over_time`: the values reach the oracle in timestamp order) -/
+theorem plan_metric_ext_any_row_order (o : Oracles) (c : MCtx) (hn : c.namesOk) (d d' : LokiDb) (q : MetricQueryX)
+    (hsup : supportedX q = true) (h : Reordered d d') :
+    (evalSelA o (d.toDbM c) (planMetricX c q)).map normRow = (evalSelA o (d'.toDbM c) (planMetricX c q)).map normRow :=
+  planMetricX_reordered o c hn d d' q hsup h
+
+/-- the full statement: `first_over_time` / `last_over_time` of a group is a function of the group's members (whatever
+    the order they are read in) -/
+def first_last_any_order_full : Prop :=
+  ∀ (l l' : List (Int × Rat)), (∀ x, x ∈ l ↔ x ∈ l') → firstBy l = firstBy l' ∧ lastBy l = lastBy l'
+
+/-- what holds (partial): it is, when the timestamps of the group are pairwise distinct -/
+theorem first_last_any_order_partial (l l' : List (Int × Rat)) (hmem : ∀ x, x ∈ l ↔ x ∈ l')
+    (hdist : ∀ p ∈ l, ∀ q ∈ l, p.1 = q.1 → p = q) : firstBy l = firstBy l' ∧ lastBy l = lastBy l' :=
+  ⟨firstBy_same_members l l' hmem hdist, lastBy_same_members l l' hmem hdist⟩
+
+/-- **finding C08/first-last-tie-follows-row-order.** Among entries of one series with the same timestamp, `argMin`/`argMax`
+    over the timestamp return the value of whichever row is read first: two rows `(ts 5, value 1)`, `(ts 5, value 2)` give
+    `first_over_time = 1` in one order and `2` in the other (the definition read in table order does the same; ClickHouse
+    leaves the choice open). The samples table stores no tie-breaker (Loki keeps ingestion order). -/
+theorem first_last_any_order_counterexample : ¬ first_last_any_order_full := by
+  intro h
+  have := (h [(5, 1), (5, 2)] [(5, 2), (5, 1)] (by intro x; simp [or_comm])).1
+  revert this
+  decide +kernel
+
+/-- the SQL side of the same witness (`Sql.SemAgg`'s `argMin`: first row with the least key) -/
+theorem first_over_time_tie_sql :
+    argMinAgg [(.rat 1, .int 5), (.rat 2, .int 5)] = .rat 1 ∧ argMinAgg [(.rat 2, .int 5), (.rat 1, .int 5)] = .rat 2 :=
+  ⟨first_over_time_tie_follows_row_order.2.2.1, first_over_time_tie_follows_row_order.2.2.2⟩
 
 /-! ## non-vacuity -/
 example : LraRows [[("_string", .str [97, 98])]] [⟨1, 5, [97, 98], 1⟩] := by unfold LraRows; decide
